@@ -42,23 +42,37 @@ def judge (q a : List String) : Verdict :=
   | _ => .bad
 
 /-! whole-program lines for the address-level model (Segment.lean):
-   P <n> I <14 init values> <ops in script order>  =>  | <reads of rank 0> | <reads of rank 1> ...
-   ops: w r var val | r r var | ws r k val | rs r k | rr r k   (globals at 100 + var; sb of rank r at 1000 + 100 r, rb at 1050 + 100 r)
-        gg a b | gs a b | sg a b | sr a b | bc root | ring      (one copy callback per message, 4 cells)
+   P <n> I <16 init values> <ops in script order>  =>  | <reads of rank 0> | <reads of rank 1> ...
+   ops: w r var val | r r var | ws r k val | rs r k | rr r k
+        m <kind> <sbuf> <dbuf> a b      one message a -> b = one copy callback; sbuf, dbuf ∈ a (g_arr) | z (s_zarr) | s (stack);
+                                        kind L = the whole arrays (5 observed cells), anything else = 4 cells
+        gg a b | gs a b | sg a b (legacy = m e a z / m e a s / m e s z) | sr a b | bc root | ring
+   Address map (one cell per OBSERVED int): g_arr = 104..108 (variables 4..7 and 14 = its last element), s_zarr = 109..113
+   (variables 8..11 and 15), the scalars 0..3 at 100..103, 12 at 114, 13 at 115; sb of rank r at 1000 + 100 r (+ k, k = 4
+   is the last element), rb at 1050 + 100 r.
    The model is the implementation semantics `Seg.step` (by `segment_isolation` = private globals per rank). -/
 
-def cfgP : Seg.Cfg := ⟨100, 14⟩
+def nVarsP : Nat := 16
+def cfgP : Seg.Cfg := ⟨100, 16⟩
+def gAddr (v : Nat) : Nat :=
+  if v < 4 then 100 + v else if v < 8 then 104 + (v - 4) else if v < 12 then 109 + (v - 8)
+  else if v = 12 then 114 else if v = 13 then 115 else if v = 14 then 108 else 113
 def sbAddr (r k : Nat) : Nat := 1000 + 100 * r + k
 def rbAddr (r k : Nat) : Nat := 1050 + 100 * r + k
+def bufAddr (snd : Bool) (r : Nat) : String → Option Nat
+  | "a" => some 104
+  | "z" => some 109
+  | "s" => some (if snd then sbAddr r 0 else rbAddr r 0)
+  | _ => none
 
 partial def parseP (n : Nat) : List String → Option (List Seg.Ev)
   | [] => some []
   | "w" :: r :: g :: v :: rest => do
     let l ← parseP n rest
-    some (.resume (← r.toNat?) :: .store (← r.toNat?) (100 + (← g.toNat?)) (← v.toInt?) :: l)
+    some (.resume (← r.toNat?) :: .store (← r.toNat?) (gAddr (← g.toNat?)) (← v.toInt?) :: l)
   | "r" :: r :: g :: rest => do
     let l ← parseP n rest
-    some (.resume (← r.toNat?) :: .load (← r.toNat?) (100 + (← g.toNat?)) :: l)
+    some (.resume (← r.toNat?) :: .load (← r.toNat?) (gAddr (← g.toNat?)) :: l)
   | "ws" :: r :: k :: v :: rest => do
     let l ← parseP n rest
     some (.resume (← r.toNat?) :: .store (← r.toNat?) (sbAddr (← r.toNat?) (← k.toNat?)) (← v.toInt?) :: l)
@@ -68,15 +82,20 @@ partial def parseP (n : Nat) : List String → Option (List Seg.Ev)
   | "rr" :: r :: k :: rest => do
     let l ← parseP n rest
     some (.resume (← r.toNat?) :: .load (← r.toNat?) (rbAddr (← r.toNat?) (← k.toNat?)) :: l)
+  | "m" :: kind :: sb :: db :: a :: b :: rest => do
+    let l ← parseP n rest
+    let a ← a.toNat?
+    let b ← b.toNat?
+    some (.commCopy a b (← bufAddr true a sb) (← bufAddr false b db) (if kind = "L" then 5 else 4) :: l)
   | "gg" :: a :: b :: rest => do
     let l ← parseP n rest
-    some (.commCopy (← a.toNat?) (← b.toNat?) 104 108 4 :: l)
+    some (.commCopy (← a.toNat?) (← b.toNat?) 104 109 4 :: l)
   | "gs" :: a :: b :: rest => do
     let l ← parseP n rest
     some (.commCopy (← a.toNat?) (← b.toNat?) 104 (rbAddr (← b.toNat?) 0) 4 :: l)
   | "sg" :: a :: b :: rest => do
     let l ← parseP n rest
-    some (.commCopy (← a.toNat?) (← b.toNat?) (sbAddr (← a.toNat?) 0) 108 4 :: l)
+    some (.commCopy (← a.toNat?) (← b.toNat?) (sbAddr (← a.toNat?) 0) 109 4 :: l)
   | "sr" :: a :: b :: rest => do
     let l ← parseP n rest
     some (.commCopy (← a.toNat?) (← b.toNat?) (sbAddr (← a.toNat?) 0) (rbAddr (← b.toNat?) 0) 4 :: l)
@@ -99,11 +118,16 @@ def judgeP (q a : List String) : Verdict :=
   | n :: "I" :: rest =>
     match n.toNat? with
     | some n =>
-      let initS := rest.take 14
-      match parseP n (rest.drop 14), (initS.map String.toInt?).all Option.isSome with
+      let initS := rest.take nVarsP
+      match parseP n (rest.drop nVarsP), (initS.map String.toInt?).all Option.isSome with
       | some evs, true =>
         let iv := initS.filterMap String.toInt?
-        let s0 : Seg.St := Seg.setup ⟨fun o => match iv[o]? with | some v => v | none => 0, fun _ => 0, fun _ _ => 0, none,
+        -- the executable's data segment by offset: the initial value of the variable that lives there
+        let orig : Nat → Int := fun o =>
+          match (List.range nVarsP).find? (fun v => gAddr v == 100 + o) with
+          | some v => (match iv[v]? with | some x => x | none => 0)
+          | none => 0
+        let s0 : Seg.St := Seg.setup ⟨orig, fun _ => 0, fun _ _ => 0, none,
           fun _ => 0, none⟩ (List.range n)
         match Seg.runWith (Seg.step cfgP) s0 evs with
         | some (_, obs) =>
